@@ -466,8 +466,38 @@ impl Model for TestModel {
     }
 }
 
-fn run_zarr<S: Settings + Fields>(s: &S) -> J {
+fn run_to_end<S: Settings>(s: S, store: Arc<MemoryStore>) -> Result<String, String> {
+    let cfg = ZarrConfig::new(store);
+    let model = TestModel { logp: test_logp() };
+    let mut sampler = Sampler::new(model, s, cfg, 2, None).map_err(|e| format!("{e:?}"))?;
+    let t0 = std::time::Instant::now();
+    loop {
+        match sampler.wait_timeout(Duration::from_millis(200)) {
+            SamplerWaitResult::Trace(_) => return Ok("ok".to_string()),
+            SamplerWaitResult::Timeout(sm) => {
+                if t0.elapsed() > Duration::from_secs(60) {
+                    let _ = sm.abort();
+                    return Err("timeout".to_string());
+                }
+                sampler = sm
+            }
+            SamplerWaitResult::Err(e, _) => return Err(format!("{e:?}")),
+        }
+    }
+}
+
+fn run_zarr<S: Settings + Fields + Default>(s: &S, reuse: bool) -> J {
     let store = Arc::new(MemoryStore::new());
+    let mut prior = J::Null;
+    if reuse {
+        // an earlier run with other settings (the preset's defaults) wrote into the same store
+        let st = store.clone();
+        prior = match catch(move || run_to_end(S::default(), st)) {
+            Ok(Ok(x)) => J::String(x),
+            Ok(Err(e)) => J::String(format!("err: {e}")),
+            Err(p) => J::String(format!("panic: {p}")),
+        };
+    }
     let cfg = ZarrConfig::new(store.clone());
     let model = TestModel { logp: test_logp() };
     let s2 = *s;
@@ -502,6 +532,7 @@ fn run_zarr<S: Settings + Fields>(s: &S) -> J {
     let stored = attrs.get("sampler_settings").cloned();
     let mut out = json!({
         "sampler": sampler_result,
+        "prior_run": prior,
         "open": "ok",
         "attr_keys": attrs.keys().cloned().collect::<Vec<_>>(),
         "sampler_kind": attrs.get("sampler_kind").cloned(),
@@ -619,7 +650,7 @@ fn run_case<S: Settings + Fields>(case: &J) -> J {
     }
     // (d)
     if jb(case, "zarr", false) {
-        out["zarr"] = run_zarr(&s);
+        out["zarr"] = run_zarr(&s, jb(case, "zarr_reuse", false));
     }
     out
 }
